@@ -15,6 +15,15 @@
 #include <fcppt/enum/to_string.hpp>
 #include <fcppt/enum/to_string_impl_fwd.hpp>
 #include <fcppt/extract_from_string.hpp>
+#include <fcppt/from_std_string_locale.hpp>
+#include <fcppt/from_std_wstring_locale.hpp>
+#include <fcppt/narrow_locale.hpp>
+#include <fcppt/optional_std_string.hpp>
+#include <fcppt/optional_string.hpp>
+#include <fcppt/string.hpp>
+#include <fcppt/to_std_string_locale.hpp>
+#include <fcppt/to_std_wstring_locale.hpp>
+#include <fcppt/widen_locale.hpp>
 #include <fcppt/extract_from_string_locale.hpp>
 #include <fcppt/insert_extract_locale.hpp>
 #include <fcppt/no_init.hpp>
@@ -32,6 +41,8 @@
 #include <fcppt/optional/object_impl.hpp>
 
 #include <bit>
+#include <cwchar>
+#include <locale>
 #include <cstdint>
 #include <cstring>
 #include <limits>
@@ -603,6 +614,201 @@ std::string vec_by_size(std::vector<std::string> const &t)
   throw bad_op{};
 }
 
+// ------------------------------------------------------------------ UTF-8 part
+std::locale const &utf8()
+{
+  static std::locale const l{"C.utf8"};
+  return l;
+}
+
+std::string whex_of(std::wstring const &s)
+{
+  if (s.empty())
+    return "-";
+  std::string bytes;
+  for (wchar_t const c : s)
+  {
+    std::uint32_t const u{static_cast<std::uint32_t>(c)};
+    bytes += static_cast<char>(u >> 24);
+    bytes += static_cast<char>((u >> 16) & 0xFF);
+    bytes += static_cast<char>((u >> 8) & 0xFF);
+    bytes += static_cast<char>(u & 0xFF);
+  }
+  return hex_of(bytes);
+}
+
+std::wstring parse_whex(std::string const &s)
+{
+  std::string const b{parse_hex(s)};
+  if (b.size() % 4 != 0)
+    throw bad_op{};
+  std::wstring r;
+  for (std::size_t i = 0; i < b.size(); i += 4)
+  {
+    std::uint32_t const u{(static_cast<std::uint32_t>(static_cast<unsigned char>(b[i])) << 24) |
+                          (static_cast<std::uint32_t>(static_cast<unsigned char>(b[i + 1])) << 16) |
+                          (static_cast<std::uint32_t>(static_cast<unsigned char>(b[i + 2])) << 8) |
+                          static_cast<std::uint32_t>(static_cast<unsigned char>(b[i + 3]))};
+    r += static_cast<wchar_t>(u);
+  }
+  return r;
+}
+
+// exact-size heap copies behind the views handed to fcppt
+template <typename Ch>
+struct exact
+{
+  explicit exact(std::basic_string<Ch> const &s) : size{s.size()}, buf{new Ch[s.size()]}
+  {
+    for (std::size_t i = 0; i < size; ++i)
+      buf[i] = s[i];
+  }
+  std::basic_string_view<Ch> view() const { return std::basic_string_view<Ch>{buf.get(), size}; }
+  std::size_t size;
+  std::unique_ptr<Ch[]> buf;
+};
+
+using facet_type = std::codecvt<wchar_t, char, std::mbstate_t>;
+
+char const *res_name(std::codecvt_base::result const r)
+{
+  switch (r)
+  {
+  case std::codecvt_base::ok: return "ok";
+  case std::codecvt_base::partial: return "partial";
+  case std::codecvt_base::error: return "error";
+  case std::codecvt_base::noconv: return "noconv";
+  }
+  return "?";
+}
+
+std::string cvt_out(std::size_t const w, std::wstring const &in)
+{
+  facet_type const &f{std::use_facet<facet_type>(utf8())};
+  std::mbstate_t st{};
+  std::unique_ptr<char[]> const buf{new char[w]};
+  wchar_t const *from_next{nullptr};
+  char *to_next{nullptr};
+  std::codecvt_base::result const r{f.out(st, in.data(), in.data() + in.size(), from_next, buf.get(), buf.get() + w, to_next)};
+  return std::string{res_name(r)} + " consumed=" + std::to_string(from_next - in.data()) + " out=" +
+         hex_of(std::string(buf.get(), static_cast<std::size_t>(to_next - buf.get()))) + " init=" +
+         (r == std::codecvt_base::error ? "-" : b01(std::mbsinit(&st) != 0));
+}
+
+std::string cvt_in(std::size_t const w, std::string const &pending, std::string const &in)
+{
+  facet_type const &f{std::use_facet<facet_type>(utf8())};
+  std::mbstate_t st{};
+  if (!pending.empty())
+  {
+    wchar_t tmp[8];
+    char const *fn{nullptr};
+    wchar_t *tn{nullptr};
+    std::codecvt_base::result const r{f.in(st, pending.data(), pending.data() + pending.size(), fn, tmp, tmp + 8, tn)};
+    if (r != std::codecvt_base::ok || fn != pending.data() + pending.size() || tn != tmp || std::mbsinit(&st) != 0)
+      throw bad_op{};
+  }
+  std::unique_ptr<wchar_t[]> const buf{new wchar_t[w]};
+  char const *from_next{nullptr};
+  wchar_t *to_next{nullptr};
+  std::codecvt_base::result const r{f.in(st, in.data(), in.data() + in.size(), from_next, buf.get(), buf.get() + w, to_next)};
+  return std::string{res_name(r)} + " consumed=" + std::to_string(from_next - in.data()) + " out=" +
+         whex_of(std::wstring(buf.get(), static_cast<std::size_t>(to_next - buf.get()))) + " init=" +
+         (r == std::codecvt_base::error ? "-" : b01(std::mbsinit(&st) != 0));
+}
+
+// narrow_locale and from_std_wstring_locale (FCPPT_NARROW_STRING) must agree
+fcppt::optional_std_string do_narrow(std::wstring const &s)
+{
+  exact<wchar_t> const e{s};
+  fcppt::optional_std_string const a{fcppt::narrow_locale(e.view(), utf8())};
+  fcppt::optional_string const b{fcppt::from_std_wstring_locale(e.view(), utf8())};
+  if (a.has_value() != b.has_value() || (a.has_value() && a.get_unsafe() != b.get_unsafe()))
+    throw std::logic_error{"narrow_locale / from_std_wstring_locale differ"};
+  if (a.has_value())
+  {
+    // to/from fcppt::string are the identity for a narrow fcppt::string
+    fcppt::string const fs{fcppt::from_std_string_locale(a.get_unsafe(), utf8())};
+    fcppt::optional_std_string const back{fcppt::to_std_string_locale(fs, utf8())};
+    if (fs != a.get_unsafe() || !back.has_value() || back.get_unsafe() != a.get_unsafe())
+      throw std::logic_error{"from_std_string_locale / to_std_string_locale"};
+  }
+  return a;
+}
+
+std::string show_narrow(fcppt::optional_std_string const &o) { return o.has_value() ? "some " + hex_of(o.get_unsafe()) : std::string{"none"}; }
+
+std::string do_widen(std::string const &s)
+{
+  exact<char> const e{s};
+  std::string a;
+  try
+  {
+    a = "some " + whex_of(fcppt::widen_locale(e.view(), utf8()));
+  }
+  catch (std::runtime_error const &)
+  {
+    a = "exc";
+  }
+  std::string b;
+  try
+  {
+    b = "some " + whex_of(fcppt::to_std_wstring_locale(e.view(), utf8()));
+  }
+  catch (std::runtime_error const &)
+  {
+    b = "exc";
+  }
+  if (a != b)
+    throw std::logic_error{"widen_locale / to_std_wstring_locale differ"};
+  return a;
+}
+
+std::string nw_line(std::wstring const &ws)
+{
+  fcppt::optional_std_string const n{do_narrow(ws)};
+  return "n=" + show_narrow(n) + " w=" + (n.has_value() ? do_widen(n.get_unsafe()) : std::string{"-"});
+}
+
+std::string utf_dispatch(std::vector<std::string> const &t)
+{
+  std::string const &op = t[0];
+  if (op == "facet" && t.size() == 1)
+  {
+    facet_type const &f{std::use_facet<facet_type>(utf8())};
+    return std::to_string(f.max_length()) + " " + b01(f.always_noconv());
+  }
+  if (op == "cvt" && t.size() == 5)
+  {
+    unsigned long long const w{parse_int<unsigned long long>(t[2])};
+    if (w > 4096)
+      throw bad_op{};
+    if (t[1] == "out" && t[3] == "-")
+      return cvt_out(w, parse_whex(t[4]));
+    if (t[1] == "in")
+      return cvt_in(w, parse_hex(t[3]), parse_hex(t[4]));
+    throw bad_op{};
+  }
+  if (op == "narrow" && t.size() == 2)
+    return show_narrow(do_narrow(parse_whex(t[1])));
+  if (op == "widen" && t.size() == 2)
+    return do_widen(parse_hex(t[1]));
+  if (op == "nw" && t.size() == 2)
+    return nw_line(parse_whex(t[1]));
+  if (op == "nws" && t.size() == 3)
+  {
+    unsigned long long const lo{parse_int<unsigned long long>(t[1])};
+    unsigned long long const n{parse_int<unsigned long long>(t[2])};
+    if (n == 0 || n > (1ULL << 20) || lo + n > (1ULL << 32))
+      throw bad_op{};
+    std::uint64_t h = vh::fnv_init;
+    for (unsigned long long c = lo; c < lo + n; ++c)
+      h = vh::fnv(h, nw_line(std::wstring(1, static_cast<wchar_t>(static_cast<std::uint32_t>(c)))));
+    return "D " + vh::hex64(h);
+  }
+  throw bad_op{};
+}
+
 std::string dispatch(std::vector<std::string> const &t)
 {
   if (t.empty())
@@ -614,6 +820,8 @@ std::string dispatch(std::vector<std::string> const &t)
     return enum_by_id(t);
   if (op == "vec" || op == "vin")
     return vec_by_size(t);
+  if (op == "facet" || op == "cvt" || op == "narrow" || op == "widen" || op == "nw" || op == "nws")
+    return utf_dispatch(t);
   if (op == "native" && t.size() == 1)
     return std::endian::native == std::endian::little ? "little" : std::endian::native == std::endian::big ? "big" : "mixed";
   if (op == "bin" || op == "bins" || op == "seq" || op == "rd")
